@@ -807,7 +807,8 @@ class PayloadDELETE(Payload):
             raise InvalidSyntax('Error parsing Payload DELETE.')
         spis = []
         offset = 4
-        for i in range(0, num_spis):
+        # never more SPIs than the data can hold (the count comes from the wire)
+        for i in range(0, min(num_spis, (len(data) - 4) // spi_size if spi_size else 0)):
             spis.append(data[offset:offset + spi_size])
             offset += spi_size
         return PayloadDELETE(protocol_id, spis, critical=critical)
